@@ -333,11 +333,74 @@ fn v0_object(b: &Built) -> Vec<u8> {
     o
 }
 
+const SCREEN_LIMIT_MIB: u64 = 3072;
+
+/// run both validators over the queued inputs in a child process whose address space is limited; returns the indices of
+/// the inputs on which the child died
+fn screen_in_child(pending: &[(Vec<u8>, MerkleHash, String, String)], seed: u64) -> std::collections::BTreeSet<usize> {
+    let mut bad = std::collections::BTreeSet::new();
+    if pending.is_empty() { return bad; }
+    let dir = std::path::PathBuf::from(std::env::var("TMPDIR").unwrap_or_else(|_| "/verif/run/tmp".into())).join(format!("xv-screen-{}-{}", std::process::id(), seed));
+    let _ = std::fs::create_dir_all(&dir);
+    let mut batch = Vec::new();
+    batch.extend_from_slice(&(pending.len() as u64).to_le_bytes());
+    for (obj, h, _, _) in pending { batch.extend_from_slice(h.as_bytes()); batch.extend_from_slice(&(obj.len() as u64).to_le_bytes()); batch.extend_from_slice(obj); }
+    std::fs::write(dir.join("batch.bin"), &batch).unwrap();
+    let mut start = 0usize;
+    for _ in 0..64 {
+        let _ = std::fs::remove_file(dir.join("progress"));
+        let st = std::process::Command::new(std::env::current_exe().unwrap()).arg("xorb_validate-child").arg("--out").arg(&dir)
+            .env("XV_START", start.to_string()).stdout(std::process::Stdio::null()).stderr(std::process::Stdio::null()).status();
+        match st {
+            Ok(s) if s.success() => break,
+            Ok(_) => {
+                let done = std::fs::metadata(dir.join("progress")).map(|m| m.len() as usize).unwrap_or(0);
+                let culprit = start + done;
+                if culprit >= pending.len() { break; }
+                bad.insert(culprit);
+                start = culprit + 1;
+                if start >= pending.len() { break; }
+            }
+            Err(_) => break,
+        }
+    }
+    let _ = std::fs::remove_dir_all(&dir);
+    bad
+}
+
+/// child of `screen_in_child`: validates `batch.bin` from index XV_START on, one progress byte per finished input
+pub fn run_validate_child(ctx: &mut Ctx) {
+    let lim = libc::rlimit { rlim_cur: SCREEN_LIMIT_MIB << 20, rlim_max: SCREEN_LIMIT_MIB << 20 };
+    unsafe { libc::setrlimit(libc::RLIMIT_AS, &lim); }
+    let dir = ctx.out.clone();
+    let batch = std::fs::read(dir.join("batch.bin")).unwrap();
+    let start: usize = std::env::var("XV_START").ok().and_then(|s| s.parse().ok()).unwrap_or(0);
+    let n = u64::from_le_bytes(batch[0..8].try_into().unwrap()) as usize;
+    let rt = rt();
+    let mut pos = 8usize;
+    let mut prog = std::fs::OpenOptions::new().create(true).append(true).open(dir.join("progress")).unwrap();
+    for i in 0..n {
+        let h = MerkleHash::from_slice(&batch[pos..pos + 32]).unwrap(); pos += 32;
+        let len = u64::from_le_bytes(batch[pos..pos + 8].try_into().unwrap()) as usize; pos += 8;
+        let obj = &batch[pos..pos + len]; pos += len;
+        if i < start { continue; }
+        let _ = verdict_seek(obj, &h);
+        let _ = verdict_stream(&rt, obj, &h);
+        use std::io::Write;
+        prog.write_all(b".").unwrap(); prog.flush().unwrap();
+    }
+    std::process::exit(0);
+}
+
 pub fn run_validate(ctx: &mut Ctx) {
     let rt = rt();
     let nobj = if ctx.quick() { 14 } else { 120 };
     let mut emitted = 0u64;
-    let mut emit = |ctx: &mut Ctx, rt: &tokio::runtime::Runtime, obj: &[u8], h: &MerkleHash, class: &str, replay: &str| {
+    // Inputs are queued and screened in a child process under an address-space limit first: an input on which a validator
+    // makes the process abort (a huge reservation from an untrusted count cannot be caught in-process) is reported as a C08
+    // failure with that input and is not run in-process.
+    let mut pending: Vec<(Vec<u8>, MerkleHash, String, String)> = Vec::new();
+    let mut emit_now = |ctx: &mut Ctx, rt: &tokio::runtime::Runtime, obj: &[u8], h: &MerkleHash, class: &str, replay: &str| {
         let (off, len) = ctx.blob(obj);
         let vs = verdict_seek(obj, h);
         let vt = verdict_stream(rt, obj, h);
@@ -364,6 +427,20 @@ pub fn run_validate(ctx: &mut Ctx) {
         ctx.case(fnv(obj) ^ fnv(h.as_bytes()), !vs.starts_with("accept"));
         emitted += 1;
     };
+    macro_rules! emit { ($ctx:expr, $rt:expr, $obj:expr, $h:expr, $class:expr, $replay:expr) => {{ let _ = (&$ctx, &$rt); pending.push((($obj).to_vec(), *($h), ($class).to_string(), ($replay).to_string())); }}; }
+    macro_rules! flush { ($ctx:expr, $rt:expr) => {{
+        let aborts = screen_in_child(&pending, $ctx.seed);
+        for (i, (obj, h, class, replay)) in pending.iter().enumerate() {
+            if aborts.contains(&i) {
+                let (off, len) = $ctx.blob(obj);
+                $ctx.fail("C08", "validator-aborts-process", format!("a validator made the process abort (allocation beyond the {} MiB address-space limit of the screening child, or another fatal signal) on a {class} input of {len} bytes (blob offset {off})", SCREEN_LIMIT_MIB), replay.clone());
+                $ctx.stat("screened_out_aborting_inputs");
+                continue;
+            }
+            emit_now($ctx, $rt, obj, h, class, replay);
+        }
+        pending.clear();
+    }}; }
     for oi in 0..nobj {
         let mut rng = ctx.rng.fork(9000 + oi);
         let small = oi % 4 != 3;
@@ -380,15 +457,15 @@ pub fn run_validate(ctx: &mut Ctx) {
         let vs = verdict_seek(&b.obj, &b.hash);
         let vt = verdict_stream(&rt, &b.obj, &b.hash);
         if !vs.starts_with("accept") || !vt.starts_with("accept") { ctx.fail("C08", "valid-rejected", format!("a valid serialized xorb was not accepted for its own hash: seek={vs} stream={vt}"), replay.clone()); }
-        emit(ctx, &rt, &b.obj, &b.hash, "valid", &replay);
+        emit!(ctx, &rt, &b.obj, &b.hash, "valid", &replay);
         let vo = verdict_seek(&b.obj, &other); let vto = verdict_stream(&rt, &b.obj, &other);
         if vo.starts_with("accept") || vto.starts_with("accept") { ctx.fail("C08", "accepted-for-other-hash", "a valid xorb was accepted for a different hash".into(), replay.clone()); }
-        emit(ctx, &rt, &b.obj, &other, "valid-other-hash", &replay);
+        emit!(ctx, &rt, &b.obj, &other, "valid-other-hash", &replay);
         // footer-less and v0
-        emit(ctx, &rt, &b.obj[..clen], &b.hash, "no-footer", &replay);
-        emit(ctx, &rt, &b.obj[..clen], &other, "no-footer-other-hash", &replay);
+        emit!(ctx, &rt, &b.obj[..clen], &b.hash, "no-footer", &replay);
+        emit!(ctx, &rt, &b.obj[..clen], &other, "no-footer-other-hash", &replay);
         let v0 = v0_object(&b);
-        emit(ctx, &rt, &v0, &b.hash, "v0", &replay);
+        emit!(ctx, &rt, &v0, &b.hash, "v0", &replay);
 
         // single-byte flips: every chunk header byte, the whole footer and the length word
         let mut positions: Vec<usize> = Vec::new();
@@ -401,29 +478,29 @@ pub fn run_validate(ctx: &mut Ctx) {
             let mut m = b.obj.clone();
             let flip = if rng.chance(1, 2) { 1u8 << rng.below(8) } else { rng.range(1, 255) as u8 };
             m[*p] ^= flip;
-            emit(ctx, &rt, &m, &b.hash, if *p < clen { "flip-chunk-header" } else { "flip-footer" }, &replay);
+            emit!(ctx, &rt, &m, &b.hash, if *p < clen { "flip-chunk-header" } else { "flip-footer" }, &replay);
         }
         // payload flips
         for _ in 0..(if small { 6 } else { 10 }) {
             let mut m = b.obj.clone();
             let p = rng.below(clen as u64) as usize;
             m[p] ^= 1u8 << rng.below(8);
-            emit(ctx, &rt, &m, &b.hash, "flip-content", &replay);
+            emit!(ctx, &rt, &m, &b.hash, "flip-content", &replay);
         }
         // truncation
         let cuts: Vec<usize> = if small { (0..b.obj.len()).collect() } else { (0..60).map(|_| rng.below(b.obj.len() as u64) as usize).collect() };
-        for c in cuts { emit(ctx, &rt, &b.obj[..c], &b.hash, "truncate", &replay); }
+        for c in cuts { emit!(ctx, &rt, &b.obj[..c], &b.hash, "truncate", &replay); }
         // splice / duplicate / drop chunks, keeping the footer
         if n >= 2 {
             let bo = &b.cas.info.chunk_boundary_offsets;
             let seg = |i: usize| -> &[u8] { let s = if i == 0 { 0 } else { bo[i - 1] as usize }; &b.obj[s..bo[i] as usize] };
             let i = rng.below(n as u64) as usize;
             let mut dup = Vec::new(); for k in 0..n { dup.extend_from_slice(seg(k)); if k == i { dup.extend_from_slice(seg(k)); } } dup.extend_from_slice(&b.obj[clen..]);
-            emit(ctx, &rt, &dup, &b.hash, "dup-chunk", &replay);
+            emit!(ctx, &rt, &dup, &b.hash, "dup-chunk", &replay);
             let mut drop = Vec::new(); for k in 0..n { if k != i { drop.extend_from_slice(seg(k)); } } drop.extend_from_slice(&b.obj[clen..]);
-            emit(ctx, &rt, &drop, &b.hash, "drop-chunk", &replay);
+            emit!(ctx, &rt, &drop, &b.hash, "drop-chunk", &replay);
             let mut sw = Vec::new(); for k in 0..n { sw.extend_from_slice(seg(if k == 0 { 1 } else if k == 1 { 0 } else { k })); } sw.extend_from_slice(&b.obj[clen..]);
-            emit(ctx, &rt, &sw, &b.hash, "swap-chunks", &replay);
+            emit!(ctx, &rt, &sw, &b.hash, "swap-chunks", &replay);
         }
         // structured footers: the footer is re-written field by field with 1-3 fields made inconsistent (counts off by one,
         // section versions, table entries, section offsets, length word) over the original / extended / shortened chunk region
@@ -471,24 +548,25 @@ pub fn run_validate(ctx: &mut Ctx) {
                 let foreign = rng.chance(1, 6);
                 if foreign { f.cashash = other; }
                 let mut m = region; m.extend_from_slice(&f.bytes());
-                emit(ctx, &rt, &m, &b.hash, "structured-footer", &replay);
-                if foreign { emit(ctx, &rt, &m, &other, "structured-footer-foreign-hash", &replay); }
+                emit!(ctx, &rt, &m, &b.hash, "structured-footer", &replay);
+                if foreign { emit!(ctx, &rt, &m, &other, "structured-footer-foreign-hash", &replay); }
             }
         }
         {
             let mut f = FooterV1::of(&b); f.cashash = other;
             let mut m = b.obj[..clen].to_vec(); m.extend_from_slice(&f.bytes());
-            emit(ctx, &rt, &m, &other, "foreign-hash-footer", &replay);
-            emit(ctx, &rt, &m, &b.hash, "foreign-hash-footer", &replay);
+            emit!(ctx, &rt, &m, &other, "foreign-hash-footer", &replay);
+            emit!(ctx, &rt, &m, &b.hash, "foreign-hash-footer", &replay);
         }
         // trailing bytes, inflated counts
         let mut t = b.obj.clone(); let k = rng.range(1, 9) as usize; t.extend_from_slice(&rng.bytes(k));
-        emit(ctx, &rt, &t, &b.hash, "trailing", &replay);
+        emit!(ctx, &rt, &t, &b.hash, "trailing", &replay);
         for field_from_end in [4usize + 16 + 4 + 4 + 4, 4] {
             let mut m = b.obj.clone(); let l = m.len(); let v: u32 = *rng.pick(&[0u32, 1, 0xffff, 0x7fff_ffff, 0xffff_ffff, 200_000]);
             m[l - field_from_end..l - field_from_end + 4].copy_from_slice(&v.to_le_bytes());
-            emit(ctx, &rt, &m, &b.hash, "inflated-field", &replay);
+            emit!(ctx, &rt, &m, &b.hash, "inflated-field", &replay);
         }
+        flush!(ctx, &rt);
     }
     // random byte strings
     let mut rng = ctx.rng.fork(99);
@@ -497,7 +575,8 @@ pub fn run_validate(ctx: &mut Ctx) {
         if rng.chance(1, 3) && len >= 12 { v[..7].copy_from_slice(b"XETBLOB"); }
         if rng.chance(1, 3) && len >= 8 { v[0] = 0; v[4] = rng.below(3) as u8; v[2] = 0; v[3] = 0; v[6] = 0; v[7] = 0; }
         let h = compute_data_hash(&v);
-        emit(ctx, &rt, &v, &h, "random", "null");
+        emit!(ctx, &rt, &v, &h, "random", "null");
     }
+    flush!(ctx, &rt);
     let _ = emitted;
 }
